@@ -230,3 +230,6 @@ func vpBadToken(name string, cidr bool) string {
 
 // vpCIDRToken: ip is what ParseCIDR returns as address, netIP/mask the IPNet fields; natively only the text matters.
 func vpCIDRToken(name string, ip, netIP, mask []byte, text string) string { return text }
+
+// vpStubIP tells the engine what net.ParseIP returns for a concrete text (natively the real parser runs).
+func vpStubIP(text string, ip16 []byte) {}
